@@ -33,6 +33,60 @@ thread_local! {
     static NET: RefCell<Option<VirtualNet>> = RefCell::new(None);
 }
 
+/// Injected socket errors (virtual sockets only): every n-th send fails without transmitting, like
+/// ENOBUFS / EPERM on a real socket; every n-th receive call fails without consuming a datagram,
+/// like the ECONNREFUSED a connected UDP socket reports after an ICMP error. 0 = never.
+#[derive(Clone, Copy, Default)]
+struct SocketFaults {
+    send_error_every: u64,
+    recv_error_every: u64,
+    sends: u64,
+    recvs: u64,
+    send_errors: u64,
+    recv_errors: u64,
+}
+
+thread_local! {
+    static FAULTS: RefCell<SocketFaults> = RefCell::new(SocketFaults::default());
+}
+
+/// Makes every `send_error_every`-th send and every `recv_error_every`-th receive call on the
+/// virtual sockets of this thread return an error (0 = never). Resets the counters.
+pub fn set_socket_faults(send_error_every: u64, recv_error_every: u64) {
+    FAULTS.with(|f| *f.borrow_mut() = SocketFaults { send_error_every, recv_error_every, ..Default::default() });
+}
+
+/// (send errors, receive errors) injected on this thread since `set_socket_faults`.
+pub fn socket_fault_counts() -> (u64, u64) {
+    FAULTS.with(|f| (f.borrow().send_errors, f.borrow().recv_errors))
+}
+
+fn injected_send_error() -> bool {
+    FAULTS.with(|f| {
+        let mut f = f.borrow_mut();
+        f.sends += 1;
+        if f.send_error_every != 0 && f.sends % f.send_error_every == 0 {
+            f.send_errors += 1;
+            true
+        } else {
+            false
+        }
+    })
+}
+
+fn injected_recv_error() -> bool {
+    FAULTS.with(|f| {
+        let mut f = f.borrow_mut();
+        f.recvs += 1;
+        if f.recv_error_every != 0 && f.recvs % f.recv_error_every == 0 {
+            f.recv_errors += 1;
+            true
+        } else {
+            false
+        }
+    })
+}
+
 /// Switches the virtual network on for the current thread (discarding any previous one).
 pub fn enable() {
     NET.with(|n| {
@@ -217,6 +271,9 @@ impl UdpSocket {
             UdpSocket::Real(s) => s.send_to(buf, addr),
             UdpSocket::Virtual(v) => {
                 let dst = first_addr(addr)?;
+                if injected_send_error() {
+                    return Err(io::Error::new(io::ErrorKind::Other, "injected send error"));
+                }
                 NET.with(|n| {
                     if let Some(ref mut net) = *n.borrow_mut() {
                         net.wire.push_back(Datagram { src: v.local, dst, data: buf.to_vec() });
@@ -241,6 +298,9 @@ impl UdpSocket {
         match self {
             UdpSocket::Real(s) => s.recv_from(buf),
             UdpSocket::Virtual(v) => {
+                if injected_recv_error() {
+                    return Err(io::Error::new(io::ErrorKind::ConnectionRefused, "injected receive error"));
+                }
                 let next = NET.with(|n| {
                     n.borrow_mut().as_mut().and_then(|net| net.sockets.get_mut(&v.local)).and_then(|s| s.inbox.pop_front())
                 });
